@@ -12,9 +12,14 @@ EXPLANATION = ("generate_if is executed on the real code for every condition val
                "and without else, and must return exactly the selected block's statements without opening a scope.  generate_for is executed for "
                "a grid of bounds (empty, single, many; loop unrolled on the real code) with bodies containing labels, a nested .if on the loop "
                "variable and a nested .for bounded by it: iteration order, one loop scope per iteration under the enclosing scope, the variable "
-               "bound during expansion, enclosing scope restored.  Equality with the hand-expanded program is the bounded twin comparison.")
+               "bound during expansion, enclosing scope restored.  FOR ARBITRARY BOUNDS AND BODIES (vf/contracts/c_expansion.py): generate_for's loop is cut at an invariant "
+               "(enclosing scope current, scope cursor consistent) and its per-iteration contract is proved for the arbitrary value k of the variable in [lo, hi): the body -- an "
+               "unknown sub-tree, its expansion replaced by _code_gen's contract -- is expanded exactly once, in a fresh loop scope under the enclosing scope, with the variable "
+               "bound to k while it is expanded; range() gives the iteration values lo..hi-1 in order and none when hi <= lo.  generate_if on unknown sub-trees expands exactly "
+               "the selected block once, in the enclosing scope.  Equality with the hand-expanded program is the bounded twin comparison.")
 TRUSTED = ["the real eval_expression is used on one-term expressions (proved in C06)"]
-ASSUMPTIONS = ["bounded in iteration count: loop bounds taken from a grid 0..4 (the loop is unrolled; per-iteration behaviour does not depend on the count)",
+ASSUMPTIONS = ["the concrete-shape cases unroll the loop for bounds from a grid 0..4; the loop-contract case covers arbitrary bounds (range() semantics: k takes lo..hi-1 in order -- "
+               "built into the loop cut, not re-proved) with _code_gen replaced by its contract (proved in C08's expansion cases)",
                "bodies are label / data statements, nested .if and nested .for (statement kinds are handled by _code_gen's dispatch, proved per generator elsewhere)",
                "composition to 'equals the unrolled / selected program' is argued in DESIGN.md and cross-checked by bounded twins through the real pipeline"]
 
@@ -66,10 +71,14 @@ def cases(E):
     for a, b in ((0, 0), (0, 1), (0, 3), (1, 4), (2, 2), (3, 1), (0, 4)):
         for sym in (False, True):
             cs.append(Case(H + "generate_for_contract", f"{a}..{b}{' (bounds from symbols)' if sym else ''}", shape_for(a, b, sym), target=[G + "generate_for"]))
+    from vf.props import expansion
+    cs += expansion.c10_cases(E)
     return cs
 
 
-OPTIONAL_CHECKS = {"generate_if_contract": ["undefined_counts_as_false", "nonzero_selects_first_block", "zero_selects_else_block"],
+OPTIONAL_CHECKS = {"generate_if_selection_contract": ["nonzero_expands_the_first_block_once", "zero_or_undefined_expands_the_else_block_once", "nothing_expanded_without_else", "expanded_in_the_enclosing_scope"],
+                   "generator_contract": ["enclosing_scope_current_again", "scope_cursor_consistent", "scopes_only_appended", "returns_a_list"],
+                   "generate_if_contract": ["undefined_counts_as_false", "nonzero_selects_first_block", "zero_selects_else_block"],
                    "generate_for_contract": ["iteration_scope_is_loop_scope", "loop_variable_bound_in_iteration_scope", "iteration_brackets"]}
 
 
@@ -78,9 +87,15 @@ def bounded(tier, seed):
     return native_call("b_C10.py", {"tier": tier, "seed": seed}, timeout=3000)
 
 
+QUICK_MUTANTS = 8
+
+
 def mutants():
     from vf.pyvc.mutate import textual
     return [
+        Mutant("generate_for:variable-bound-after-expansion (loop contract)", G + "generate_for", textual("        resolver.current_scope.add_symbol(node.symbol, k)\n        code += _code_gen(node.body.body, resolver, macro_definitions)", "        code += _code_gen(node.body.body, resolver, macro_definitions)\n        resolver.current_scope.add_symbol(node.symbol, k)"), only_harness="generator_contract"),
+        Mutant("generate_for:body-expanded-twice (loop contract)", G + "generate_for", textual("        code += _code_gen(node.body.body, resolver, macro_definitions)", "        code += _code_gen(node.body.body, resolver, macro_definitions)\n        code += _code_gen(node.body.body, resolver, macro_definitions)"), only_harness="generator_contract"),
+        Mutant("generate_if:undefined-drops-else (arbitrary sub-trees)", G + "generate_if", textual("condition = False", "return code"), only_harness="generate_if_selection"),
         Mutant("generate_if:negative-is-false", G + "generate_if", textual("if condition:", "if condition > 0:"), only_harness="generate_if"),
         Mutant("generate_if:undefined-drops-else", G + "generate_if", textual("condition = False", "return code"), only_harness="generate_if"),
         Mutant("generate_for:inclusive-upper-bound", G + "generate_for", textual("range(from_val, to_val)", "range(from_val, to_val + 1)"), only_harness="generate_for"),
